@@ -322,6 +322,15 @@ def r12_4(chk, repo, uc):
     ev = uc.ev(q)
     chk.saw(UC, q)
     ang = P.name(ev.param_names[2])
+    # constructing a cell leaves the caller's lengths / angles alone (a unit conversion in place on np.asarray(angles) converts the
+    # caller's array: the next cell built from the same parameters is a different cell)
+    from ..effects import param_mutations
+    for ctor in [f.name for f in uc.methods("UnitCell") if f.name in ("from_lengths_and_angles", "from_unique_parameters", "from_unique_parameters_deg",
+                                                                       "cubic", "rhombohedral", "hexagonal", "tetragonal", "orthorhombic", "monoclinic", "triclinic")]:
+        muts = param_mutations(repo, uc, f"UnitCell.{ctor}")
+        muts = {k: v for k, v in muts.items() if k not in ("cls", "self")}
+        chk.ob("R12.4", UC, f"UnitCell.{ctor}", "the constructor does not modify the lengths / angles / parameters it is given", not muts,
+               fingerprint=f"args-unchanged:{ctor}", expected="np.radians(angles) (a new array)", found=[f"{k}: {v[0]}" for k, v in muts.items()][:2])
     calls = [e for e in ev.events if e.kind == "call" and call_name(e.value.as_atom() or ()) == ".set_lengths_and_angles"]
     chk.need(len(calls) == 2, f"{q}: expected two calls of set_lengths_and_angles")
     for e in calls:
